@@ -9,14 +9,15 @@ flag) for every non-singular box.
 """
 import numpy as np
 
-from .. import bus, cover, gen, ref
+from .. import bus, core, cover, gen, ref
 
 LEVEL = 'exploration'
 JOBS = {'quick': 2, 'thorough': 16}
 REQUIRED_MONITORS = ('min_image_reference', 'symmetry', 'lattice_shift', 'inverse_flag', 'history_independence')
 REQUIRED_CLASSES = ('box:cubic', 'box:anisotropic', 'box:triclinic', 'arg:residue', 'arg:point', 'arg:multi-residue-molecule',
                     'placement:across-face', 'placement:far-outside', 'placement:lattice-points', 'box:triclinic-upper-only', 'box:triclinic-full', 'wrapped:yes', 'wrapped:no',
-                    'session:same', 'session:rescale-in-place', 'session:new-values-in-place', 'session:other-object', 'call:positional', 'call:mixed', 'call:keywords')
+                    'session:same', 'session:rescale-in-place', 'session:new-values-in-place', 'session:other-object', 'call:positional', 'call:mixed', 'call:keywords',
+                    'settings:warnings-as-errors', 'settings:fp-raise', 'settings:fp-ignore')
 RULE = ('pairs (residue, residue-or-point) x box; classes: box kind (cubic / anisotropic rectangular / triclinic with '
         'skew <= 0.4 L), placement (inside, across a face, on a face, many boxes away). Non-trivial: the minimum '
         'image is not the plain separation (some axis wraps). distinct = distinct (box kind, placement, argument '
@@ -45,11 +46,12 @@ def install_contract(ctx):
             a = b = box_before = None
         value = real(self, *args, **kwargs)
         try:
-            if box_before is not None and a is not None and box_before.shape == (3, 3):
-                box = np.linalg.inv(box_before) if inv else box_before
-                judge(ctx, a, b, box, value, inv)
-                if not np.array_equal(np.asarray(box_vects, float), box_before):
-                    ctx.violation('distance-box-modified', 'distance_to changed the box array it was given')
+            with bus.neutral():
+                if box_before is not None and a is not None and box_before.shape == (3, 3):
+                    box = np.linalg.inv(box_before) if inv else box_before
+                    judge(ctx, a, b, box, value, inv)
+                    if not np.array_equal(np.asarray(box_vects, float), box_before):
+                        ctx.violation('distance-box-modified', 'distance_to changed the box array it was given')
         except Exception as exc:  # noqa
             ctx.violation('monitor-error:distance', repr(exc))
         return value
@@ -108,6 +110,16 @@ _shape_no = [0]
 def dist(ctx, a, b, box, inv=False):
     """a.distance_to(b, ...) with the box (or its inverse) in one of the call shapes the signature
     distance_to(residue, box_vects=None, inv=False) allows, in rotation."""
+    kind = core.next_settings(ctx)
+    if kind != 'default':
+        # the same call under the warning / floating-point settings a caller may have chosen (the unchanged library is
+        # silent here: being refused with a warning-turned-exception would itself be the observation)
+        with core.settings(kind):
+            return _dist(ctx, a, b, box, inv)
+    return _dist(ctx, a, b, box, inv)
+
+
+def _dist(ctx, a, b, box, inv=False):
     k = _shape_no[0] = (_shape_no[0] + 1) % 6
     if k == 0:
         ctx.hit('call:keywords')
